@@ -418,6 +418,7 @@ type Env struct {
 	atomIv map[string]Iv
 	gs     []*gform
 	depth  int
+	budget int
 	Trace  []string
 }
 
@@ -468,6 +469,11 @@ func (e *Env) baseIv(t *BTerm) Iv {
 	case TConst:
 		return Iv{t.Val, t.Val}
 	case TLen:
+		// with a 32-bit int, lengths are assumed to stay far from the
+		// wrap-around point (no Modbus buffer comes near 16 Mi elements)
+		if e.Sizes != nil && e.Sizes.Sizeof(types.Typ[types.Int]) < 8 {
+			return Iv{0, 1 << 24}
+		}
 		return Iv{0, ivInf}
 	case TLookup:
 		var vals []int64
@@ -796,6 +802,7 @@ func (e *Env) refine() {
 func (e *Env) ProveLE(a, b *Lin, c int64) bool {
 	d := b.sub(a).addC(c)
 	e.Trace = e.Trace[:0]
+	e.budget = 4000
 	return e.nonneg(d, 6, map[string]bool{})
 }
 
@@ -804,9 +811,10 @@ func (e *Env) nonneg(d *Lin, depth int, seen map[string]bool) bool {
 	if e.IvLin(d).Lo >= 0 {
 		return true
 	}
-	if depth == 0 {
+	if depth == 0 || e.budget <= 0 {
 		return false
 	}
+	e.budget--
 	k := d.Key()
 	if seen[k] {
 		return false
@@ -914,3 +922,88 @@ func (e *Env) bounds(E *Lin, upper bool) []*Lin {
 	}
 	return out
 }
+
+// ---------------------------------------------------------------------------
+// Substitution and evaluation of linear forms (used for composing a
+// producer's "count -> length field" map with a consumer's "length field ->
+// count" map).
+
+// Atoms lists the atoms of l (including those inside floor divisions).
+func (l *Lin) Atoms() []*BTerm {
+	var out []*BTerm
+	seen := map[string]bool{}
+	var rec func(x *Lin)
+	rec = func(x *Lin) {
+		for _, k := range x.keys() {
+			a := x.A[k]
+			if a.K == TFDiv {
+				rec(a.Lin)
+				continue
+			}
+			if !seen[k] {
+				seen[k] = true
+				out = append(out, a)
+			}
+		}
+	}
+	rec(l)
+	return out
+}
+
+// Subst replaces the atom with the given key by repl (also inside floor
+// divisions, which are re-normalised).
+func (e *Env) Subst(l *Lin, key string, repl *Lin) *Lin {
+	out := linConst(l.C)
+	for _, k := range l.keys() {
+		c := l.T[k]
+		a := l.A[k]
+		switch {
+		case k == key:
+			out = out.addScaled(repl, c)
+		case a.K == TFDiv:
+			out = out.addScaled(e.fdiv(e.Subst(a.Lin, key, repl), a.Val), c)
+		default:
+			out = out.addScaled(linAtom(a), c)
+		}
+	}
+	return out
+}
+
+// Eval evaluates l with the given atom values; ok=false if an atom is unbound.
+func (l *Lin) Eval(val map[string]int64) (int64, bool) {
+	r := l.C
+	for k, c := range l.T {
+		a := l.A[k]
+		if a.K == TFDiv {
+			v, ok := a.Lin.Eval(val)
+			if !ok {
+				return 0, false
+			}
+			r += c * floorDiv(v, a.Val)
+			continue
+		}
+		v, ok := val[k]
+		if !ok {
+			return 0, false
+		}
+		r += c * v
+	}
+	return r, true
+}
+
+// IsConst reports whether l has no atoms, and its value.
+func (l *Lin) IsConst() (int64, bool) { return l.C, len(l.T) == 0 }
+
+// LinAtom exposes linAtom.
+func LinAtom(t *BTerm) *Lin { return linAtom(t) }
+
+// Sub returns l - m.
+func (l *Lin) Sub(m *Lin) *Lin { return l.sub(m) }
+
+// LenTerm builds len(path).
+func LenTerm(path *BTerm) *BTerm {
+	return mkTerm(&BTerm{K: TLen, Args: []*BTerm{path}, Typ: types.Typ[types.Int]})
+}
+
+// FDiv exposes the normalised floor division.
+func (e *Env) FDiv(l *Lin, d int64) *Lin { return e.fdiv(l, d) }
